@@ -33,9 +33,12 @@ Definition model_fields (s : sig string) (r : cfreq string) : res (list (string 
   match setup facts_gen fs with Err e => Err e | Ok _ => Ok (map (fun f => (fl_name f, fl_default f)) fs) end.
 
 Definition model_inferred (s : sig string) (r : cfreq string) (untyped : list (string * dkind)) : list (string * ity) :=
-  let names := map fl_name (cf_fields facts_gen (ignore_names (rq_ignore r)) (rq_over r) s) in
+  let fs := cf_fields facts_gen (ignore_names (rq_ignore r)) (rq_over r) s in
+  let names := map fl_name fs in
+  match setup facts_gen fs with Err _ => [] | Ok _ =>      (* no class, nothing to look at *)
   map (fun nd => (fst nd, infer (f_infer facts_gen) (snd nd)))
-      (filter (fun nd => str_in (fst nd) names && negb (str_in (fst nd) (keys (rq_over r)))) untyped).
+      (filter (fun nd => str_in (fst nd) names && negb (str_in (fst nd) (keys (rq_over r)))) untyped)
+  end.
 Definition inferred_eqb (a b : list (string * ity)) : bool :=
   list_eqb (fun x y => String.eqb (fst x) (fst y) && ity_eqb (snd x) (snd y)) a b.
 
